@@ -42,6 +42,16 @@ def memdeps_model(tier):
     return blocks, r.distinct + q.distinct
 
 
+# blocks of the thorough corpus on which defects were found (a load whose value is only used by a store that is removed
+# as redundant, next to another load of the same address; an unused second KECCAK256 of the same range): run in both tiers
+PINNED = ["PUSH 0 MLOAD PUSH 0 MSTORE MSTORE8 PUSH 0 MLOAD", "PUSH 40 MLOAD PUSH 40 MSTORE PUSH 21 MSTORE MLOAD",
+          "DUP1 SLOAD PUSH 1 ADD SLOAD POP DUP2 DUP2 SSTORE PUSH 0 SLOAD SSTORE PUSH 0 SLOAD",
+          "PUSH 20 PUSH 20 KECCAK256 PUSH 20 MSTORE PUSH 20 PUSH 20 KECCAK256 POP", "PUSH 20 PUSH 0 KECCAK256 POP MSTORE PUSH 2 PUSH 1f KECCAK256",
+          "MSTORE PUSH 40 MLOAD PUSH 0 MLOAD PUSH 0 MSTORE", "PUSH 1 MLOAD PUSH 1 SSTORE MSTORE8 ADD PUSH 1 SSTORE PUSH 0 MLOAD SWAP1 PUSH 0 MLOAD",
+          "PUSH 1f MLOAD PUSH 1f MSTORE DUP2 DUP2 MSTORE PUSH 3f MLOAD", "MSTORE8 PUSH 40 MLOAD PUSH 40 MSTORE MLOAD",
+          "DUP1 SLOAD DUP2 SSTORE SSTORE DUP1 SLOAD"]
+
+
 def build_blocks(tier, seed):
     gs = {}
     if tier == "quick":
@@ -72,7 +82,7 @@ def build_blocks(tier, seed):
     xs = xs + deep
     gs.update({"X": len(xs), "S": len(sim), "R": len(real), "deep": len(deep)})
     hand = [t for t in corpus.hand_blocks() if any(k in t for k in ("MSTORE", "MLOAD", "SSTORE", "SLOAD", "KECCAK"))]
-    cmds = [{"cmd": "sfs", "text": t} for t in hand + xs + sim] + [{"cmd": "sfs", "items": b["items"]} for b in real]
+    cmds = [{"cmd": "sfs", "text": t} for t in PINNED + hand + xs + sim] + [{"cmd": "sfs", "items": b["items"]} for b in real]
     return cmds, gs
 
 
@@ -126,7 +136,7 @@ def run(tier):
     cmds += [{"cmd": "sfs", "text": t} for t in mblocks]
     sets = OPTSETS[:4] if tier == "quick" else OPTSETS
     def pick(i):
-        return cmds if (i == 0 or tier != "quick") else corpus.sample(cmds, len(cmds) * 2 // 5, seed + i)
+        return cmds if (i == 0 or tier != "quick") else cmds[:len(PINNED)] + corpus.sample(cmds[len(PINNED):], len(cmds) * 2 // 5, seed + i)
     res = pool.run_matrix([(["-greedy"] + argv, [dict(c) for c in pick(i)]) for i, (_, argv) in enumerate(sets)], timeout=20)
     cases, cnt = cases_from([(n, r) for (n, _), r in zip(sets, res)], maxops=6 if tier == "quick" else 8, min_ops=1)
     for c in cases:
